@@ -22,6 +22,21 @@ def tt_layer(E, s):
             c.copy_(E.tensor('w%d' % k, list(c.shape), s['dtype']))
         layer.bias.copy_(E.tensor('b', s['size_out'], s['dtype']))
     x = E.tensor('x', list(s['batch']) + list(s['size_in']), s['dtype'])
+    if s.get('mode') == 'eval_then_update':
+        # multi-step: a forward pass in eval mode, then the parameters change (as an optimizer step / load_state_dict would), then forward again
+        layer.eval()
+        layer(x)
+        with tn.no_grad():
+            for k, c in enumerate(cores):
+                c.copy_(E.tensor('w2_%d' % k, list(c.shape), s['dtype']))
+            layer.bias.copy_(E.tensor('b2', s['size_out'], s['dtype']))
+    elif s.get('mode') == 'eval':
+        layer.eval()
+    elif s.get('mode') == 'load_state_dict':
+        layer.eval()
+        layer(x)
+        sd = {k: E.tensor('sd_' + k.replace('.', '_'), list(v.shape), s['dtype']) for k, v in layer.state_dict().items()}
+        layer.load_state_dict(sd)
     y = layer(x) if s.get('call') else layer.forward(x)
     W = dense(E, [c.detach() for c in cores])      # size_out... x size_in...
     nb = len(s['batch'])
